@@ -10,10 +10,10 @@ THEOREM = 'C08_wake_exactly_on_time'
 RULE = ('1-5 coroutines given as scripts (per resumption: optional in-body start/kill/state '
         'actions, then yield of None/0/-1/a positive dyadic wait from 1/8 to 4, or return), '
         'started at frames 0-3, 5-20 process calls with dt from {0, 1/8, 1/2, 1, 2, 3} '
-        '(half of the cases use the small alphabet {0, 1/2, 1} x waits {1/2, 1, 2} so that '
-        'accumulated dt meets deadlines exactly); 25 % of the cases add kill / restart '
-        'traffic; all times dyadic, no tolerance anywhere; non-trivial = at least two '
-        'positive waits ran out in the trace')
+        '(half of the cases use the small alphabet dt {0, 1/2, 1} x waits {1/2, 1, 2} so that '
+        'the accumulated dt meets deadlines exactly: about 45 % of all waits); 25 % of the '
+        'cases add kill / restart traffic between frames and inside bodies; all times dyadic, '
+        'no tolerance anywhere; non-trivial = at least two positive waits ran out in the trace')
 TRUSTED = [
     'Coq 8.16.1 kernel + vm_compute (evaluation of C08_verdict on the observed traces)',
     'hand-written model Coro/Model.v tied to /repo by this correspondence run '
@@ -27,7 +27,10 @@ TRUSTED = [
 MALFORMED_OK = True
 ASSUMPTIONS = ['dt >= 0 and all times exactly representable (multiples of 1/8 below 2^50)',
                'a generator that has returned is not started again (its resumption runs no '
-               'code, so it cannot be observed)']
+               'code, so it cannot be observed)',
+               'not covered: a coroutine killed before its turn in the very frame in which its '
+               'wait ran out, restarted in that frame by a coroutine whose wait ran out with the '
+               'same deadline, and then not run in that frame (heap tie that the log cannot show)']
 
 
 def gen(rng, tier):
